@@ -124,22 +124,20 @@ Proof.
   - apply N.ltb_lt in H. exists (enc_tag n), (TkTag n). split; [reflexivity|]. split; [reflexivity|].
     intros p r L HL HL2. unfold enc_tag in *. change TAGGED with (6 * 32) in *. rewrite type_len_head in * by exact H.
     rewrite phead_ser in *. apply tok_tag; [now apply fits_min_width|exact HL].
-  - (* Simple *) apply andb_prop in H as [H1 H2]. apply N.ltb_lt in H1. apply Bool.negb_true_iff in H2.
-    assert (Hw: wf (ESimple n) = true).
-    { cbn [wf]. destruct (N.ltb_spec n 24); [reflexivity|]. cbn [orb]. apply andb_true_intro. split; [apply N.leb_le|apply N.ltb_lt; lia].
-      destruct (N.leb_spec 24 n); [|lia]. destruct (N.leb_spec n 31); [discriminate|lia]. }
-    destruct (encs_simple n Hw) as (cs & E & F). cbn [enc_tokens] in E.
-    destruct (enc_token (simple_tok n)) as [c0|] eqn:E0; [|discriminate]. injection E as <-. rewrite app_nil_r in F.
-    exists (match enc_simple n with Some x => x | None => [] end), (simple_tok n).
-    assert (ES: enc_simple n = Some [ser (ESimple n)]).
-    { unfold enc_simple. cbn [ser]. destruct (N.leb_spec n 23).
-      - destruct (N.ltb_spec n 24); [reflexivity|lia].
-      - destruct (N.leb_spec n 31).
-        + destruct (N.leb_spec 24 n); [discriminate|lia].
-        + destruct (N.ltb_spec n 24); [lia|reflexivity]. }
-    cbn [enc_token]. rewrite ES. split; [reflexivity|]. split; [now rewrite tok_val_simple|].
-    intros p r L HL HL2. change (flat [ser (ESimple n)]) with (ser (ESimple n) ++ []) in *. rewrite app_nil_r in *.
-    now apply tok_simple.
+  - (* Simple: 0..=23 in one byte (wf), everything else — 24..=31 included, F2b — as f8 n, which reads back as Simple(n) *)
+    apply N.ltb_lt in H. destruct (N.leb_spec n 23) as [Hn|Hn].
+    + assert (Hw: wf (ESimple n) = true) by (cbn [wf]; destruct (N.ltb_spec n 24); [reflexivity|lia]).
+      assert (ES: enc_simple n = [ser (ESimple n)]).
+      { unfold enc_simple. cbn [ser]. destruct (N.leb_spec n 23); [|lia]. destruct (N.ltb_spec n 24); [reflexivity|lia]. }
+      exists (enc_simple n), (simple_tok n).
+      cbn [enc_token]. rewrite ES. split; [reflexivity|]. split; [now rewrite tok_val_simple|].
+      intros p r L HL HL2. change (flat [ser (ESimple n)]) with (ser (ESimple n) ++ []) in *. rewrite app_nil_r in *.
+      now apply tok_simple.
+    + assert (ES: enc_simple n = [[248; n]]) by (unfold enc_simple; destruct (N.leb_spec n 23); [lia|reflexivity]).
+      exists (enc_simple n), (TkSimple n).
+      cbn [enc_token]. rewrite ES. split; [reflexivity|]. split; [reflexivity|].
+      intros p r L HL HL2. change (flat [[248; n]]) with [248; n] in *. change (len [248; n]) with 2 in *. cbn [app].
+      rewrite tok_simple_ext. f_equal. f_equal. lia.
   - eapply conv_one; [reflexivity|]. intros. now apply tok_break.
   - eapply conv_one; [reflexivity|]. intros. now apply tok_null.
   - eapply conv_one; [reflexivity|]. intros. now apply tok_undefined.
@@ -225,6 +223,5 @@ Proof.
   - apply len_type_len.
   - apply len_type_len.
   - apply len_type_len.
-  - unfold enc_simple in E. unfold len_u8. destruct (N.leb_spec n 23); [injection E as <-; reflexivity|].
-    destruct (N.leb_spec n 31); [discriminate|]. injection E as <-. reflexivity.
+  - unfold enc_simple, len_u8. destruct (N.leb_spec n 23); reflexivity.
 Qed.
